@@ -42,7 +42,14 @@ use lightning_signer::util::test_utils::make_test_channel_setup;
 use lightning_signer::{CommitmentPointProvider, SendSync};
 use serde_json::{json, Value};
 use vharness::*;
+use lightning_signer::node::Node;
+use lightning_signer::persist::Persist;
+use vls_persist::kvv::KVVStore;
 use vls_persist::model::ChainTrackerEntry;
+use vls_protocol::serde_bolt::LargeOctets;
+use vls_protocol::serde_bolt::Octets;
+use vls_protocol::msgs::{self, Message, SerBolt};
+use vls_protocol_signer::handler::{Handler, HandlerBuilder, RootHandler};
 
 type Tracker = ChainTracker<ChainMonitor>;
 
@@ -284,8 +291,30 @@ enum Stage {
     Closed,
 }
 
+/// the signer behind the wire protocol: the tracker is the node's, requests are messages
+struct HandlerCtx {
+    world: World,
+    node: Arc<Node>,
+    handler: RootHandler,
+}
+
+enum TRef<'a> {
+    Own(&'a Tracker),
+    Node(lightning_signer::prelude::MutexGuard<'a, Tracker>),
+}
+impl<'a> std::ops::Deref for TRef<'a> {
+    type Target = Tracker;
+    fn deref(&self) -> &Tracker {
+        match self {
+            TRef::Own(t) => t,
+            TRef::Node(g) => &*g,
+        }
+    }
+}
+
 struct Case {
-    tracker: Tracker,
+    own: Option<Tracker>,
+    hctx: Option<HandlerCtx>,
     /// the blocks of the best chain as the harness knows it; last = tip
     chain: Vec<(Block, FilterHeader)>,
     /// per channel: is it registered as a listener, and where its funding stands
@@ -299,9 +328,10 @@ struct Case {
     allow_deep: bool,
     salt: u32,
     intern: Intern,
-    /// a block stream in progress: (block, bytes sent, total bytes)
-    stream: Option<(Block, usize, Vec<u8>)>,
+    /// a block stream in progress: (declared hash, complete)
+    stream: Option<(BlockHash, bool)>,
     last_view: String,
+    last_store: Option<Value>,
 }
 
 fn entry_json(t: &Tracker) -> Value {
@@ -309,6 +339,83 @@ fn entry_json(t: &Tracker) -> Value {
 }
 
 impl Case {
+    fn tr(&self) -> TRef<'_> {
+        match (&self.own, &self.hctx) {
+            (Some(t), _) => TRef::Own(t),
+            (None, Some(h)) => TRef::Node(h.node.get_tracker()),
+            _ => unreachable!(),
+        }
+    }
+
+    /// the tracker entry as it sits in the store (handler mode)
+    fn stored_entry(&self) -> Option<Value> {
+        let h = self.hctx.as_ref()?;
+        let key = format!("node/tracker/{}", hex::encode(h.node.get_id().serialize()));
+        let (_, bytes) = h.world.persister.0.get(&key).expect("store get")?;
+        Some(serde_json::from_slice(&bytes).expect("stored tracker entry is JSON"))
+    }
+
+    /// the three requests, against the bare tracker or as wire messages through RootHandler;
+    /// result code as in [err_code] (through the handler only Ok, OrphanBlock and panic exist)
+    fn call_add(&mut self, header: BlockHeader, proof: TxoProof) -> u64 {
+        if let Some(t) = self.own.as_mut() {
+            return match catch_unwind(AssertUnwindSafe(|| t.add_block(header, proof))) {
+                Ok(x) => err_code(&x),
+                Err(_) => ABORT,
+            };
+        }
+        let h = self.hctx.as_ref().unwrap();
+        let msg = Message::AddBlock(msgs::AddBlock { header: Octets(serialize(&header)), unspent_proof: Some(msgs::DebugTxoProof(proof)) });
+        Self::wire(h, msg, |m| matches!(m, Message::AddBlockReply(_)))
+    }
+    fn call_remove(&mut self, proof: TxoProof, prev: Headers) -> u64 {
+        if let Some(t) = self.own.as_mut() {
+            return match catch_unwind(AssertUnwindSafe(|| t.remove_block(proof, prev).map(|_| ()))) {
+                Ok(x) => err_code(&x),
+                Err(_) => ABORT,
+            };
+        }
+        let h = self.hctx.as_ref().unwrap();
+        let msg = Message::RemoveBlock(msgs::RemoveBlock {
+            unspent_proof: Some(LargeOctets(serialize(&proof))),
+            prev_block_header: prev.0,
+            prev_filter_header: prev.1,
+        });
+        Self::wire(h, msg, |m| matches!(m, Message::RemoveBlockReply(_)))
+    }
+    fn call_chunk(&mut self, hash: BlockHash, offset: u32, bytes: &[u8]) -> u64 {
+        if let Some(t) = self.own.as_mut() {
+            return match catch_unwind(AssertUnwindSafe(|| t.block_chunk(hash, offset, bytes))) {
+                Ok(x) => err_code(&x),
+                Err(_) => ABORT,
+            };
+        }
+        let h = self.hctx.as_ref().unwrap();
+        let msg = Message::BlockChunk(msgs::BlockChunk { hash, offset, content: Octets(bytes.to_vec()) });
+        Self::wire(h, msg, |m| matches!(m, Message::BlockChunkReply(_)))
+    }
+    /// serialise, parse back (the real wire path), handle
+    fn wire(h: &HandlerCtx, msg: Message, is_ok: impl Fn(&Message) -> bool) -> u64 {
+        let bytes = msg.inner().as_vec();
+        let parsed = msgs::from_vec(bytes).expect("request parses back");
+        let r = catch_unwind(AssertUnwindSafe(|| h.handler.handle(parsed)));
+        match r {
+            Err(_) => ABORT,
+            Ok(Err(_)) => ABORT, // a Status error: not produced by these arms for well-formed input
+            Ok(Ok(reply)) => {
+                let back = msgs::from_vec(reply.as_vec()).expect("reply parses");
+                if is_ok(&back) {
+                    0
+                } else if let Message::SignerError(e) = &back {
+                    assert_eq!(e.code, msgs::CODE_ORPHAN_BLOCK);
+                    2
+                } else {
+                    panic!("unexpected reply")
+                }
+            }
+        }
+    }
+
     fn mon_json(m: &ChainMonitor) -> Value {
         serde_json::to_value(&*m.get_state()).expect("monitor json")
     }
@@ -330,7 +437,7 @@ impl Case {
     fn slots_view(&mut self) -> Vec<(u64, Vec<u64>, Vec<u64>, Vec<u64>, u64)> {
         let mut out = vec![];
         let items: Vec<_> = self
-            .tracker
+            .tr()
             .listeners
             .iter()
             .map(|(k, (l, s))| (*k, Self::mon_json(l), s.clone()))
@@ -347,17 +454,17 @@ impl Case {
     }
 
     fn coq_state(&mut self) -> String {
-        let hdrs: Vec<Headers> = self.tracker.headers.iter().cloned().collect();
+        let hdrs: Vec<Headers> = self.tr().headers.iter().cloned().collect();
         self.last_view = self.coq_view();
         let hs: Vec<String> = hdrs.iter().map(|h| self.coq_headers(h)).collect();
-        let tip = self.tracker.tip.clone();
+        let tip = self.tr().tip.clone();
         let tip_s = self.coq_headers(&tip);
         let slots: Vec<String> = self
             .slots_view()
             .into_iter()
             .map(|(k, t, w, s, m)| format!("(mkslot {} {} {} {} {})", k, coq_nlist(&t), coq_nlist(&w), coq_nlist(&s), m))
             .collect();
-        format!("(mkts {} {} {} {} None false)", coq_list(&hs), tip_s, self.tracker.height, coq_list(&slots))
+        format!("(mkts {} {} {} {} None false)", coq_list(&hs), tip_s, self.tr().height, coq_list(&slots))
     }
 
     /// the observation compared with the model after every step; after a panic the tracker is
@@ -369,20 +476,21 @@ impl Case {
         format!("({}, {})", code, self.last_view)
     }
     fn coq_view(&mut self) -> String {
-        let hdrs: Vec<Headers> = self.tracker.headers.iter().cloned().collect();
+        let hdrs: Vec<Headers> = self.tr().headers.iter().cloned().collect();
         let hs: Vec<String> = hdrs
             .iter()
             .map(|h| format!("({}, {})", self.intern.hash(&h.0.block_hash()), self.intern.fh(&h.1)))
             .collect();
-        let tip = self.tracker.tip.clone();
+        let tip = self.tr().tip.clone();
         let slots: Vec<String> = self
             .slots_view()
             .into_iter()
             .map(|(k, t, w, s, m)| format!("({}, {}, {}, {}, {})", k, coq_nlist(&t), coq_nlist(&w), coq_nlist(&s), m))
             .collect();
+        let height = self.tr().height;
         format!(
             "({}, ({}, {}), {}, {})",
-            self.tracker.height,
+            height,
             self.intern.hash(&tip.0.block_hash()),
             self.intern.fh(&tip.1),
             coq_list(&hs),
@@ -396,7 +504,8 @@ impl Case {
             Network::Testnet => "Testnet",
             _ => "Bitcoin",
         };
-        let trusted: Vec<u64> = self.tracker.trusted_oracle_pubkeys.clone().iter().map(|k| self.intern.key(k)).collect();
+        let keys: Vec<PublicKey> = self.tr().trusted_oracle_pubkeys.clone();
+        let trusted: Vec<u64> = keys.iter().map(|k| self.intern.key(k)).collect();
         let _ = fx;
         format!(
             "(mkcfg {} {} {} {} {})",
@@ -409,14 +518,14 @@ impl Case {
     }
 
     fn forward_watches(&self) -> Vec<OutPoint> {
-        let mut v: Vec<OutPoint> = self.tracker.listeners.values().flat_map(|(_, s)| s.watches.iter().cloned()).collect();
+        let mut v: Vec<OutPoint> = self.tr().listeners.values().flat_map(|(_, s)| s.watches.iter().cloned()).collect();
         v.sort();
         v.dedup();
         v
     }
     fn reverse_watches(&self) -> Vec<OutPoint> {
         let mut v: Vec<OutPoint> = self
-            .tracker
+            .tr()
             .listeners
             .values()
             .flat_map(|(_, s)| s.watches.iter().cloned().chain(s.seen.iter().cloned()))
@@ -431,7 +540,7 @@ impl Case {
     fn deltas(&mut self, fx: &Fixture, txs: &[Transaction], hash: &BlockHash, is_remove: bool) -> Option<String> {
         let mut out = vec![];
         let items: Vec<(OutPoint, lightning_signer::monitor::State)> =
-            self.tracker.listeners.iter().map(|(k, (l, _))| (*k, l.get_state().clone())).collect();
+            self.tr().listeners.iter().map(|(k, (l, _))| (*k, l.get_state().clone())).collect();
         for (k, st) in items {
             let ch = fx.chans.iter().find(|c| c.funding_outpoint == k).expect("listener of a fixture channel");
             let copy = ChainMonitorBase::new_from_persistence(k, st, &ch.id).as_monitor(Box::new(ch.provider.clone()));
@@ -458,7 +567,7 @@ impl Case {
     fn mons_after_block_start(&mut self, fx: &Fixture, header: &BlockHeader) -> String {
         let mut out = vec![];
         let items: Vec<(OutPoint, lightning_signer::monitor::State)> =
-            self.tracker.listeners.iter().map(|(k, (l, _))| (*k, l.get_state().clone())).collect();
+            self.tr().listeners.iter().map(|(k, (l, _))| (*k, l.get_state().clone())).collect();
         for (k, st) in items {
             let ch = fx.chans.iter().find(|c| c.funding_outpoint == k).expect("listener of a fixture channel");
             let copy = ChainMonitorBase::new_from_persistence(k, st, &ch.id).as_monitor(Box::new(ch.provider.clone()));
@@ -582,8 +691,8 @@ impl Case {
 
     /// build the add_block request of the given flavour on top of the current tip
     fn build_add(&mut self, fx: &Fixture, rng: &mut Rng, fl: Flavour) -> (Built, Vec<(usize, Stage)>) {
-        let tip = self.tracker.tip.clone();
-        let height = self.tracker.height.wrapping_add(1);
+        let tip = self.tr().tip.clone();
+        let height = self.tr().height.wrapping_add(1);
         let (txs, changes) = self.next_txs(fx, rng);
         let prev_hash = match fl {
             Flavour::WrongPrev => {
@@ -657,7 +766,7 @@ impl Case {
             Flavour::WrongSuppliedFilter => prev.1 = FilterHeader::from_byte_array([0x33; 32]),
             _ => {}
         }
-        let height = self.tracker.height;
+        let height = self.tr().height;
         let fh = filter_header_of(&tip_block, &prev.1);
         let all_txids: Vec<Txid> = tip_block.txdata.iter().map(|t| t.compute_txid()).collect();
         let ptype = match fl {
@@ -686,16 +795,20 @@ impl Case {
         Some((prev, TxoProof { attestations, proof: ptype }, tip_block))
     }
 
-    fn coq_proof(&mut self, fx: &Fixture, proof: &TxoProof, header_for_verify: &BlockHeader, exp_height: u32, ext_hash: &BlockHash, prev_fh: &FilterHeader, block: &Block, notify_hash: &BlockHash, is_remove: bool) -> String {
+    fn coq_proof(&mut self, fx: &Fixture, proof: &TxoProof, header_for_verify: &BlockHeader, exp_height: u32, ext_hash: &BlockHash, prev_fh: &FilterHeader, block: &Block, notify_hash: &BlockHash, is_remove: bool) -> (String, bool) {
         let secp = Secp256k1::new();
         let ext = if proof.proof.is_external() { Some(ext_hash) } else { None };
         let fwd = self.forward_watches();
         let rev = self.reverse_watches();
         let pok_fwd = proof.verify(exp_height, header_for_verify, ext, prev_fh, &fwd, &secp).is_ok();
         let pok_rev = proof.verify(exp_height, header_for_verify, ext, prev_fh, &rev, &secp).is_ok();
+        let mut no_panic = true;
         let pfh = match catch_unwind(AssertUnwindSafe(|| proof.filter_header())) {
             Ok(f) => format!("(Some {})", self.intern.fh(&f)),
-            Err(_) => "None".to_string(),
+            Err(_) => {
+                no_panic = is_remove; // remove_block never asks for it
+                "None".to_string()
+            }
         };
         let att: Vec<u64> = proof.attestations.iter().map(|(k, _)| self.intern.key(k)).collect();
         let (pty, txs): (&str, Vec<Transaction>) = match &proof.proof {
@@ -703,8 +816,14 @@ impl Case {
             ProofType::Block(_) => ("PBlock", vec![]),
             ProofType::ExternalBlock() => ("PExternal", block.txdata.clone()),
         };
-        let deltas = self.deltas(fx, &txs, notify_hash, is_remove).unwrap_or_else(|| "[]".to_string());
-        format!("(mkproof {} {} {} {} {} {})", pty, pfh, coq_bool(pok_fwd), coq_bool(pok_rev), coq_nlist(&att), deltas)
+        let deltas = match self.deltas(fx, &txs, notify_hash, is_remove) {
+            Some(d) => format!("(Some {})", d),
+            None => {
+                no_panic = false;
+                "None".to_string()
+            }
+        };
+        (format!("(mkproof {} {} {} {} {} {})", pty, pfh, coq_bool(pok_fwd), coq_bool(pok_rev), coq_nlist(&att), deltas), no_panic)
     }
 }
 
@@ -717,34 +836,53 @@ struct StepOut {
     what: String,
     atomic_violation: Option<Value>,
     invalid_accepted: Option<Value>,
+    store_violation: Option<Value>,
+    /// which decision points of the code this request sat on (coverage counters)
+    tags: Vec<String>,
+    /// the harness's own judgement that this request is correct in every respect it can
+    /// decide without the model (used by the later-request monitor)
+    expected_ok: bool,
 }
 
 impl Case {
-    fn finish_step(&mut self, coq_req: String, what: String, code: u64, pre: &Value, validity: Option<(bool, String)>) -> StepOut {
-        let post = if code == ABORT { pre.clone() } else { entry_json(&self.tracker) };
+    fn finish_step(&mut self, coq_req: String, what: String, code: u64, pre: &Value, validity: Option<(bool, String)>, expected_ok: bool) -> StepOut {
+        let post = if code == ABORT { pre.clone() } else { entry_json(&self.tr()) };
         let mut atomic_violation = None;
         if (1..=6).contains(&code) && post != *pre {
             atomic_violation = Some(json!({"request": what, "result": code_name(code), "changed": diff_entries(pre, &post)}));
         }
         let mut invalid_accepted = None;
         if code == 0 {
-            if let Some((ok, why)) = validity {
+            if let Some((ok, why)) = validity.clone() {
                 if !ok {
                     invalid_accepted = Some(json!({"request": what, "accepted_although": why}));
                 }
             }
         }
+        // behind the handler: an acknowledged block is in the store, anything else left it alone
+        let mut store_violation = None;
+        if self.hctx.is_some() {
+            let stored = self.stored_entry();
+            if code == 0 && validity.is_some() {
+                if stored.as_ref() != Some(&post) {
+                    store_violation = Some(json!({"request": what, "acknowledged_but_store_differs_from_memory": true}));
+                }
+            } else if stored != self.last_store {
+                store_violation = Some(json!({"request": what, "result": code_name(code), "store_changed_without_acknowledgement": true}));
+            }
+            self.last_store = stored;
+        }
         let coq_obs = self.coq_obs(code);
-        StepOut { coq_req, coq_obs, code, what, atomic_violation, invalid_accepted }
+        StepOut { coq_req, coq_obs, code, what, atomic_violation, invalid_accepted, store_violation, tags: vec![], expected_ok }
     }
 
     /// add_block with a compact, full-block or external proof (the stream, if any, was sent before)
     fn do_add(&mut self, fx: &Fixture, b: &Built, changes: Vec<(usize, Stage)>, what: String) -> StepOut {
-        let pre = entry_json(&self.tracker);
-        let tip = self.tracker.tip.clone();
-        let exp_height = self.tracker.height.wrapping_add(1);
+        let pre = entry_json(&self.tr());
+        let tip = self.tr().tip.clone();
+        let exp_height = self.tr().height.wrapping_add(1);
         let hash = b.header.block_hash();
-        let cp = self.coq_proof(fx, &b.proof, &b.header, exp_height, &hash, &tip.1, &b.block, &hash, false);
+        let (cp, no_panic) = self.coq_proof(fx, &b.proof, &b.header, exp_height, &hash, &tip.1, &b.block, &hash, false);
         let coq_req = format!("(Add {} {})", self.coq_hdr(&b.header), cp);
         // the property itself, on the implementation's answer
         let secp = Secp256k1::new();
@@ -754,7 +892,7 @@ impl Case {
         let bypass = tip.1.to_byte_array().iter().all(|x| *x == 0);
         let fwd = self.forward_watches();
         let pok = b.proof.verify(exp_height, &b.header, ext, &tip.1, &fwd, &secp).is_ok();
-        let trusted = self.tracker.trusted_oracle_pubkeys.clone();
+        let trusted = self.tr().trusted_oracle_pubkeys.clone();
         let matching = trusted.iter().filter(|k| b.proof.attestations.iter().any(|(a, _)| a == *k)).count();
         let half = 2 * matching >= trusted.len();
         let equal_bits_rule = self.network == Network::Testnet
@@ -762,14 +900,17 @@ impl Case {
             || b.header.bits == tip.0.bits;
         let valid = link && pow && equal_bits_rule && (bypass || self.warn || (pok && half));
         let why = format!("link={} pow={} equal_bits_off_boundary={} bypass={} warn={} proof_ok={} trusted_attesting={}/{}", link, pow, equal_bits_rule, bypass, self.warn, pok, matching, trusted.len());
-
-        let header = b.header;
-        let proof = b.proof.clone();
-        let r = catch_unwind(AssertUnwindSafe(|| self.tracker.add_block(header, proof)));
-        let code = match &r {
-            Ok(x) => err_code(x),
-            Err(_) => ABORT,
+        // "correct in every respect": same bits (which also passes the retarget window on regtest)
+        let bits_surely_ok = if exp_height % 2016 == 0 { self.network == Network::Regtest && b.header.bits == tip.0.bits } else { self.network == Network::Testnet || b.header.bits == tip.0.bits };
+        let stream_ok = match (&b.proof.proof, &self.stream) {
+            (ProofType::ExternalBlock(), Some((h, complete))) => *complete && *h == hash,
+            (ProofType::Filter(_, _), None) => true,
+            _ => false,
         };
+        let expected_ok = valid && bits_surely_ok && stream_ok && no_panic && self.tr().height < u32::MAX;
+
+        let window_before = self.tr().headers.len();
+        let code = self.call_add(b.header, b.proof.clone());
         if code == 0 {
             self.chain.push((b.block.clone(), b.fh));
             self.undo.push(changes);
@@ -781,15 +922,27 @@ impl Case {
         if b.proof.proof.is_external() && code != ABORT {
             self.stream = None;
         }
-        self.finish_step(coq_req, what, code, &pre, Some((valid, why)))
+        let mut o = self.finish_step(coq_req, what, code, &pre, Some((valid, why)), expected_ok);
+        if exp_height % 2016 == 0 {
+            o.tags.push(format!("add at a retarget height, bits {}: {}", if b.header.bits == tip.0.bits { "equal" } else { "changed" }, code_name(code)));
+        } else if b.header.bits != tip.0.bits {
+            o.tags.push(format!("add off the retarget height with other bits ({:?}): {}", self.network, code_name(code)));
+        }
+        if window_before >= 99 && code == 0 {
+            o.tags.push(format!("accepted add with {} remembered headers -> {}", window_before, self.tr().headers.len()));
+        }
+        if bypass && code == 0 && !(pok && half) {
+            o.tags.push("add accepted through the all-zero filter header bypass".into());
+        }
+        o
     }
 
     fn do_remove(&mut self, fx: &Fixture, prev: &Headers, proof: &TxoProof, tip_block: &Block, what: String) -> StepOut {
-        let pre = entry_json(&self.tracker);
-        let tip = self.tracker.tip.clone();
-        let exp_height = self.tracker.height;
+        let pre = entry_json(&self.tr());
+        let tip = self.tr().tip.clone();
+        let exp_height = self.tr().height;
         let prev_hash = prev.0.block_hash();
-        let cp = self.coq_proof(fx, proof, &tip.0, exp_height, &prev_hash, &prev.1, tip_block, &prev_hash, true);
+        let (cp, no_panic) = self.coq_proof(fx, proof, &tip.0, exp_height, &prev_hash, &prev.1, tip_block, &prev_hash, true);
         let coq_req = format!("(Remove {} {})", self.coq_headers(prev), cp);
         let secp = Secp256k1::new();
         let ext = if proof.proof.is_external() { Some(&prev_hash) } else { None };
@@ -798,19 +951,22 @@ impl Case {
         let bypass = prev.1.to_byte_array().iter().all(|x| *x == 0);
         let rev = self.reverse_watches();
         let pok = proof.verify(exp_height, &tip.0, ext, &prev.1, &rev, &secp).is_ok();
-        let trusted = self.tracker.trusted_oracle_pubkeys.clone();
+        let trusted = self.tr().trusted_oracle_pubkeys.clone();
         let matching = trusted.iter().filter(|k| proof.attestations.iter().any(|(a, _)| a == *k)).count();
         let half = 2 * matching >= trusted.len();
-        let remembered = self.tracker.headers.front().map(|h| h.0 == prev.0 && h.1 == prev.1).unwrap_or(self.allow_deep);
+        let remembered = self.tr().headers.front().map(|h| h.0 == prev.0 && h.1 == prev.1).unwrap_or(self.allow_deep);
         let valid = link && pow && remembered && (bypass || self.warn || (pok && half));
         let why = format!("link={} pow={} matches_remembered_header={} bypass={} warn={} proof_ok={} trusted_attesting={}/{}", link, pow, remembered, bypass, self.warn, pok, matching, trusted.len());
 
-        let (p2, h2) = (proof.clone(), prev.clone());
-        let r = catch_unwind(AssertUnwindSafe(|| self.tracker.remove_block(p2, h2).map(|_| ())));
-        let code = match &r {
-            Ok(x) => err_code(x),
-            Err(_) => ABORT,
+        let bits_surely_ok = if exp_height % 2016 == 0 { self.network == Network::Regtest && tip.0.bits == prev.0.bits } else { self.network == Network::Testnet || tip.0.bits == prev.0.bits };
+        let stream_ok = match (&proof.proof, &self.stream) {
+            (ProofType::ExternalBlock(), Some((h, complete))) => *complete && *h == prev_hash,
+            (ProofType::Filter(_, _), None) => true,
+            _ => false,
         };
+        let expected_ok = valid && bits_surely_ok && stream_ok && no_panic && self.tr().height > 0;
+        let window_before = self.tr().headers.len();
+        let code = self.call_remove(proof.clone(), prev.clone());
         if code == 0 {
             self.chain.pop();
             if let Some(changes) = self.undo.pop() {
@@ -822,20 +978,29 @@ impl Case {
         if proof.proof.is_external() && code != ABORT {
             self.stream = None;
         }
-        self.finish_step(coq_req, what, code, &pre, Some((valid, why)))
+        let mut o = self.finish_step(coq_req, what, code, &pre, Some((valid, why)), expected_ok);
+        if window_before == 0 {
+            o.tags.push(format!("remove below the remembered window (deep reorgs {}): {}", if self.allow_deep { "allowed" } else { "refused" }, code_name(code)));
+        }
+        if exp_height % 2016 == 0 {
+            o.tags.push(format!("remove of a retarget-height block: {}", code_name(code)));
+        }
+        if bypass && code == 0 && !(pok && half) {
+            o.tags.push("remove accepted through the all-zero filter header bypass".into());
+        }
+        o
     }
 
     /// one BlockChunk
     fn do_chunk(&mut self, fx: &Fixture, block: &Block, hash: BlockHash, offset: u32, bytes: &[u8], first: bool, wellformed: bool, complete: bool, what: String) -> StepOut {
-        let pre = entry_json(&self.tracker);
+        let pre = entry_json(&self.tr());
         let mons = if first { self.mons_after_block_start(fx, &block.header) } else { self.mons_now() };
         let coq_req = format!("(Chunk {} {} {} {} {})", self.intern.hash(&hash), coq_bool(first), coq_bool(wellformed), coq_bool(complete), mons);
-        let r = catch_unwind(AssertUnwindSafe(|| self.tracker.block_chunk(hash, offset, bytes)));
-        let code = match &r {
-            Ok(x) => err_code(x),
-            Err(_) => ABORT,
-        };
-        self.finish_step(coq_req, what, code, &pre, None)
+        let code = self.call_chunk(hash, offset, bytes);
+        if code == 0 {
+            self.stream = Some((hash, complete));
+        }
+        self.finish_step(coq_req, what, code, &pre, None, false)
     }
 }
 
@@ -867,13 +1032,39 @@ struct Start {
     height: u32,
     tip_bits_kind: Option<u8>,
     tip_fh_zero: bool,
+    prev_fh_zero: bool,
     listeners: Vec<bool>,
 }
 
 fn new_case(fx: &Fixture, st: &Start, salt0: u32) -> Case {
-    // tip = pool[window] (or a re-mined variant with other bits), remembered = pool[window-1 .. 0]
-    let w = st.window;
+    new_case_on(fx, st, salt0, false)
+}
+
+fn hsmd_init_message() -> Message {
+    Message::HsmdInit(msgs::HsmdInit {
+        key_version: vls_protocol::model::Bip32KeyVersion { pubkey_version: 0x0488b21e, privkey_version: 0x0488ade4 },
+        chain_params: genesis_block(NETWORK).block_hash(),
+        encryption_key: None,
+        dev_privkey: None,
+        dev_bip32_seed: None,
+        dev_channel_secrets: None,
+        dev_channel_secrets_shaseed: None,
+        hsm_wire_min_version: msgs::MIN_PROTOCOL_VERSION,
+        hsm_wire_max_version: msgs::DEFAULT_MAX_PROTOCOL_VERSION,
+    })
+}
+
+fn new_case_on(fx: &Fixture, st: &Start, salt0: u32, via_handler: bool) -> Case {
+    // tip = pool[window + BASE] (or a re-mined variant with other bits), remembered = the `window`
+    // blocks below it; the harness knows BASE more blocks below the window, so that it can ask
+    // for removals deeper than the tracker remembers
+    const BASE: usize = 3;
+    let nwin = st.window;
+    let w = st.window + BASE;
     let mut chain: Vec<(Block, FilterHeader)> = fx.pool[0..=w].to_vec();
+    if st.prev_fh_zero {
+        chain[w - 1].1 = FilterHeader::all_zeros();
+    }
     if let Some(k) = st.tip_bits_kind {
         if w > 0 {
             let (prev, prev_fh) = chain[w - 1].clone();
@@ -889,31 +1080,68 @@ fn new_case(fx: &Fixture, st: &Start, salt0: u32) -> Case {
         chain[w].1 = FilterHeader::all_zeros();
     }
     let tip = Headers(chain[w].0.header, chain[w].1);
-    let headers: std::collections::VecDeque<Headers> = (0..w).rev().map(|i| Headers(chain[i].0.header, chain[i].1)).collect();
+    let headers: std::collections::VecDeque<Headers> = (w - nwin..w).rev().map(|i| Headers(chain[i].0.header, chain[i].1)).collect();
     let trusted: Vec<PublicKey> = st.trusted.iter().map(|i| fx.oracles[*i].pubkey).collect();
-    let mut tracker: Tracker = ChainTracker::restore(
-        headers,
-        tip,
-        st.height,
-        st.network,
-        Default::default(),
-        fx.node_id,
-        validator_factory(st.warn),
-        trusted,
-    );
-    tracker.set_allow_deep_reorgs(st.allow_deep);
-    for (i, reg) in st.listeners.iter().enumerate() {
-        if *reg {
-            let ch = &fx.chans[i];
-            let base = ChainMonitorBase::new(ch.funding_outpoint, st.height, &ch.id);
-            base.add_funding_outpoint(&ch.funding_outpoint);
-            let mut tw = lightning_signer::OrderedSet::new();
-            tw.insert(ch.funding_outpoint.txid);
-            tracker.add_listener(base.as_monitor(Box::new(ch.provider.clone())), tw);
+    let (own, hctx) = if via_handler {
+        // a signer behind the wire protocol, its tracker put into the start state and persisted
+        let mut policy = World::default_policy();
+        if st.warn {
+            policy.filter = PolicyFilter { rules: vec![FilterRule::new_warn("policy-chain-validated")] };
         }
-    }
+        let mut seed = [0xc1u8; 32];
+        seed[1..5].copy_from_slice(&salt0.to_le_bytes());
+        let world = World::new(policy, seed, KeyDerivationStyle::Native);
+        let mut init = HandlerBuilder::new(NETWORK, 0, world.services(), world.seed).build().expect("init handler");
+        let (done, _) = init.handle(hsmd_init_message()).expect("hsmd init");
+        assert!(done);
+        let handler: RootHandler = init.into();
+        let node = handler.node().clone();
+        {
+            let mut t = node.get_tracker();
+            t.headers = headers;
+            t.tip = tip;
+            t.height = st.height;
+            t.network = st.network;
+            t.trusted_oracle_pubkeys = trusted;
+            t.set_allow_deep_reorgs(st.allow_deep);
+        }
+        for (i, reg) in st.listeners.iter().enumerate() {
+            if *reg {
+                let mut setup: ChannelSetup = make_test_channel_setup();
+                setup.funding_outpoint = fx.chans[i].funding_outpoint;
+                let (id, _) = node.new_channel(1 + i as u64, &[2u8; 33], &node).expect("new_channel");
+                node.setup_channel(id, None, setup, &DerivationPath::master()).expect("setup_channel");
+            }
+        }
+        world.persister.update_tracker(&node.get_id(), &node.get_tracker()).expect("persist start state");
+        (None, Some(HandlerCtx { world, node, handler }))
+    } else {
+        let mut tracker: Tracker = ChainTracker::restore(
+            headers,
+            tip,
+            st.height,
+            st.network,
+            Default::default(),
+            fx.node_id,
+            validator_factory(st.warn),
+            trusted,
+        );
+        tracker.set_allow_deep_reorgs(st.allow_deep);
+        for (i, reg) in st.listeners.iter().enumerate() {
+            if *reg {
+                let ch = &fx.chans[i];
+                let base = ChainMonitorBase::new(ch.funding_outpoint, st.height, &ch.id);
+                base.add_funding_outpoint(&ch.funding_outpoint);
+                let mut tw = lightning_signer::OrderedSet::new();
+                tw.insert(ch.funding_outpoint.txid);
+                tracker.add_listener(base.as_monitor(Box::new(ch.provider.clone())), tw);
+            }
+        }
+        (Some(tracker), None)
+    };
     Case {
-        tracker,
+        own,
+        hctx,
         chain,
         registered: st.listeners.clone(),
         stage: vec![Stage::Unfunded; fx.chans.len()],
@@ -926,6 +1154,7 @@ fn new_case(fx: &Fixture, st: &Start, salt0: u32) -> Case {
         intern: Intern::default(),
         stream: None,
         last_view: String::new(),
+        last_store: None,
     }
 }
 
@@ -963,6 +1192,12 @@ fn gen_start(rng: &mut Rng, max_window: usize) -> Start {
     if ntrusted == 2 && rng.chance(1, 6) {
         trusted[1] = trusted[0]; // a duplicated trusted key
     }
+    let mut listeners = vec![rng.chance(2, 3), rng.chance(1, 3)];
+    if height >= u32::MAX - 16 {
+        // the channel monitors have their own height arithmetic (C14's subject): the u32 edge
+        // is exercised on the tracker alone
+        listeners = vec![false, false];
+    }
     Start {
         network: if rng.chance(1, 6) { Network::Testnet } else { Network::Regtest },
         trusted,
@@ -972,7 +1207,8 @@ fn gen_start(rng: &mut Rng, max_window: usize) -> Start {
         height,
         tip_bits_kind: if rng.chance(1, 3) { Some(*rng.pick(&[0u8, 1, 1, 2])) } else { None },
         tip_fh_zero: rng.chance(1, 7),
-        listeners: vec![rng.chance(2, 3), rng.chance(1, 3)],
+        prev_fh_zero: rng.chance(1, 8),
+        listeners,
     }
 }
 
@@ -998,9 +1234,14 @@ fn split_points(rng: &mut Rng, len: usize) -> Vec<usize> {
 }
 
 /// run one generated history; returns the emitted case and the counters
-fn run_case(fx: &Fixture, rng: &mut Rng, id: usize, stats: &mut BTreeMap<String, u64>, max_window: usize) -> Value {
-    let st = gen_start(rng, max_window);
-    let mut case = new_case(fx, &st, id as u32 + 1);
+fn run_case(fx: &Fixture, rng: &mut Rng, id: usize, stats: &mut BTreeMap<String, u64>, max_window: usize, via_handler: bool) -> Value {
+    let mut st = gen_start(rng, max_window);
+    if via_handler {
+        // NodeConfig::new(Regtest) as built by HandlerBuilder; the tracker's network field is set
+        st.window = st.window.min(5);
+    }
+    let mut case = new_case_on(fx, &st, id as u32 + 1, via_handler);
+    case.last_store = case.stored_entry();
     let coq_cfg = case.coq_cfg(fx);
     let coq_init = case.coq_state();
     let len = 3 + rng.below(10) as usize;
@@ -1010,9 +1251,10 @@ fn run_case(fx: &Fixture, rng: &mut Rng, id: usize, stats: &mut BTreeMap<String,
     let mut atomic = vec![];
     let mut invalid = vec![];
     let mut later = vec![];
+    let mut store: Vec<Value> = vec![];
     let mut force_valid = false;
     let mut kinds = (false, false, false); // saw ok, err, after-err-ok
-    let at_boundary = |c: &Case| c.tracker.height.wrapping_add(1) % 2016 == 0;
+    let at_boundary = |c: &Case| c.tr().height.wrapping_add(1) % 2016 == 0;
     let mut n = 0;
     while n < len {
         n += 1;
@@ -1020,7 +1262,7 @@ fn run_case(fx: &Fixture, rng: &mut Rng, id: usize, stats: &mut BTreeMap<String,
         let mut outs: Vec<StepOut> = vec![];
         let was_forced = force_valid;
         if removal {
-            let fl = if force_valid {
+            let fl = if force_valid || (via_handler && rng.chance(3, 4)) {
                 Flavour::Valid
             } else {
                 match rng.below(20) {
@@ -1038,6 +1280,8 @@ fn run_case(fx: &Fixture, rng: &mut Rng, id: usize, stats: &mut BTreeMap<String,
                     _ => Flavour::Valid,
                 }
             };
+            // a proof without attestations does not survive the wire decoder
+            let fl = if via_handler && fl == Flavour::NoAttestation { Flavour::BadSignature } else { fl };
             let (prev, proof, tip_block) = case.build_remove(fx, rng, fl).unwrap();
             if fl == Flavour::StreamedRemoval {
                 let bytes = serialize(&tip_block);
@@ -1054,9 +1298,11 @@ fn run_case(fx: &Fixture, rng: &mut Rng, id: usize, stats: &mut BTreeMap<String,
                 outs.push(case.do_remove(fx, &prev, &proof, &tip_block, format!("remove[{}]", flavour_name(fl))));
             }
         } else {
-            let fl = if force_valid {
+            let fl = if force_valid || (via_handler && rng.chance(3, 4)) {
                 if rng.chance(1, 3) {
                     Flavour::ValidStreamed
+                } else if via_handler && rng.chance(1, 4) {
+                    Flavour::WrongPrev
                 } else {
                     Flavour::Valid
                 }
@@ -1086,6 +1332,7 @@ fn run_case(fx: &Fixture, rng: &mut Rng, id: usize, stats: &mut BTreeMap<String,
                     }
                 }
             };
+            let fl = if via_handler && fl == Flavour::NoAttestation { Flavour::BadSignature } else { fl };
             let (b, changes) = case.build_add(fx, rng, fl);
             let streamed = matches!(fl, Flavour::ValidStreamed | Flavour::StreamIncomplete | Flavour::StreamOtherBlock);
             let mut aborted = false;
@@ -1093,7 +1340,8 @@ fn run_case(fx: &Fixture, rng: &mut Rng, id: usize, stats: &mut BTreeMap<String,
                 let (sblock, declared) = if fl == Flavour::StreamOtherBlock {
                     // a different block is streamed under its own hash; the AddBlock names `b`
                     let txs = vec![coinbase(case.next_salt())];
-                    let oh = mine(case.tracker.tip.0.block_hash(), merkle_root(&txs), case.tracker.tip.0.bits, 1, true);
+                    let tip0 = case.tr().tip.0;
+                    let oh = mine(tip0.block_hash(), merkle_root(&txs), tip0.bits, 1, true);
                     let ob = Block { header: oh, txdata: txs };
                     let h = ob.block_hash();
                     (ob, h)
@@ -1123,6 +1371,9 @@ fn run_case(fx: &Fixture, rng: &mut Rng, id: usize, stats: &mut BTreeMap<String,
         for o in outs {
             *stats.entry(format!("result:{}", code_name(o.code))).or_insert(0) += 1;
             *stats.entry(format!("op:{}", o.what.split(|c| c == '(' || c == ']').next().unwrap_or("").to_string() + if o.what.contains('[') { "]" } else { "" })).or_insert(0) += 1;
+            for t in &o.tags {
+                *stats.entry(format!("at:{}", t)).or_insert(0) += 1;
+            }
             jops.push(json!([o.what, code_name(o.code)]));
             reqs.push(o.coq_req);
             obs.push(o.coq_obs);
@@ -1132,14 +1383,17 @@ fn run_case(fx: &Fixture, rng: &mut Rng, id: usize, stats: &mut BTreeMap<String,
             if let Some(v) = o.invalid_accepted {
                 invalid.push(v);
             }
+            if let Some(v) = o.store_violation {
+                store.push(v);
+            }
             let is_block_req = o.what.starts_with("add") || o.what.starts_with("remove");
             if o.code == ABORT {
                 stop = true;
             } else if (1..=6).contains(&o.code) {
                 kinds.1 = true;
                 // the later correct request must succeed (where a correct one exists)
-                let h1 = case.tracker.height.wrapping_add(1);
-                force_valid = case.tracker.height < u32::MAX - 1 && !(case.network == Network::Testnet && h1 % 2016 == 0);
+                let h1 = case.tr().height.wrapping_add(1);
+                force_valid = case.tr().height < u32::MAX - 1 && !(case.network == Network::Testnet && h1 % 2016 == 0);
             } else if is_block_req {
                 kinds.0 = true;
                 if was_forced {
@@ -1147,9 +1401,16 @@ fn run_case(fx: &Fixture, rng: &mut Rng, id: usize, stats: &mut BTreeMap<String,
                 }
                 force_valid = false;
             }
-            if was_forced && is_block_req && o.code != 0 {
+            if was_forced && is_block_req && o.expected_ok && o.code != 0 {
                 later.push(json!({"after_a_refused_request_the_correct_request": o.what, "result": code_name(o.code)}));
-                force_valid = false;
+            }
+            if was_forced && is_block_req && o.expected_ok {
+                *stats.entry("later:correct_requests_after_a_refusal".into()).or_insert(0) += 1;
+            }
+            if was_forced && o.what.starts_with("chunk") && o.code == ABORT {
+                // the stream of a correct block dies in the listeners
+                later.push(json!({"after_a_refused_request_the_correct_request": format!("streamed block: {}", o.what), "result": code_name(o.code),
+                                  "class": "streamed-reject-stale-decode"}));
             }
         }
         if stop {
@@ -1167,13 +1428,14 @@ fn run_case(fx: &Fixture, rng: &mut Rng, id: usize, stats: &mut BTreeMap<String,
     }
     let coq = format!("({}, {}, {}, {})", coq_cfg, coq_init, coq_list(&reqs), coq_list(&obs));
     json!({
-        "id": id, "kind": "seq",
+        "id": id, "kind": if via_handler { "handler" } else { "seq" },
         "start": {"network": format!("{:?}", st.network), "trusted": st.trusted, "warn": st.warn, "allow_deep": st.allow_deep,
-                  "window": st.window, "height": st.height, "tip_bits_kind": st.tip_bits_kind, "tip_filter_header_zero": st.tip_fh_zero,
+                  "window": st.window, "height": st.height, "tip_bits_kind": st.tip_bits_kind, "tip_filter_header_zero": st.tip_fh_zero, "prev_filter_header_zero": st.prev_fh_zero,
                   "listeners": st.listeners},
         "ops": jops,
         "nontrivial": kinds.0 && kinds.1 && kinds.2,
         "atomicity_violations": atomic, "later_request_violations": later, "invalid_accepted": invalid,
+        "store_violations": store,
         "coq": coq
     })
 }
@@ -1181,14 +1443,30 @@ fn run_case(fx: &Fixture, rng: &mut Rng, id: usize, stats: &mut BTreeMap<String,
 fn seq(args: &Args) {
     if std::env::var("VERIF_PANICS").is_err() { quiet_panics(); }
     let thorough = args.tier == "thorough";
-    let fx = fixture(if thorough { 104 } else { 104 });
-    let mut rng = Rng::new(args.seed ^ 0xc13);
+    let _ = thorough;
+    let fx = fixture(108);
+    // vharness::Rng streams of neighbouring seeds are shifts of each other: scramble first
+    let mut rng = Rng(Rng::new(args.seed ^ 0xc13).next());
     let mut stats = BTreeMap::new();
     for id in 0..args.n {
-        let v = run_case(&fx, &mut rng, id, &mut stats, 100);
+        let v = run_case(&fx, &mut rng, id, &mut stats, 100, false);
         emit("CASE", v);
     }
     emit("STATS", json!({"kind": "seq", "counts": stats}));
+}
+
+/// the same requests as wire messages through RootHandler (AddBlock / RemoveBlock / BlockChunk):
+/// there a tracker Err other than OrphanBlock is a panic, so a history ends at the first one
+fn handler(args: &Args) {
+    if std::env::var("VERIF_PANICS").is_err() { quiet_panics(); }
+    let fx = fixture(12);
+    let mut rng = Rng(Rng::new(args.seed ^ 0x4a11d).next());
+    let mut stats = BTreeMap::new();
+    for id in 0..args.n {
+        let v = run_case(&fx, &mut rng, id, &mut stats, 5, true);
+        emit("CASE", v);
+    }
+    emit("STATS", json!({"kind": "handler", "counts": stats}));
 }
 
 // ------------------------------------------------------------------ sub-domain `scripted`
@@ -1196,12 +1474,12 @@ fn seq(args: &Args) {
 /// The two replays the property text is about, as fixed histories (also evaluated by the model).
 fn scripted(_args: &Args) {
     if std::env::var("VERIF_PANICS").is_err() { quiet_panics(); }
-    let fx = fixture(8);
+    let fx = fixture(12);
     let mut rng = Rng::new(1);
     // (1) refused removal, then the correct removal
     {
         let st = Start { network: Network::Regtest, trusted: vec![0], warn: false, allow_deep: false, window: 4, height: 4,
-                         tip_bits_kind: None, tip_fh_zero: false, listeners: vec![true, false] };
+                         tip_bits_kind: None, tip_fh_zero: false, prev_fh_zero: false, listeners: vec![true, false] };
         let mut case = new_case(&fx, &st, 7001);
         let coq_cfg = case.coq_cfg(&fx);
         let coq_init = case.coq_state();
@@ -1219,7 +1497,7 @@ fn scripted(_args: &Args) {
     // (2) refused streamed block, then a correct streamed block
     {
         let st = Start { network: Network::Regtest, trusted: vec![0], warn: false, allow_deep: false, window: 2, height: 2,
-                         tip_bits_kind: None, tip_fh_zero: false, listeners: vec![true, false] };
+                         tip_bits_kind: None, tip_fh_zero: false, prev_fh_zero: false, listeners: vec![true, false] };
         let mut case = new_case(&fx, &st, 7002);
         let coq_cfg = case.coq_cfg(&fx);
         let coq_init = case.coq_state();
@@ -1227,7 +1505,7 @@ fn scripted(_args: &Args) {
         let (b, ch) = case.build_add(&fx, &mut rng, Flavour::ValidStreamed);
         // spoil the attestation: the stream is fine, the AddBlock is refused
         let mut bad = Built { header: b.header, block: b.block.clone(), proof: b.proof.clone(), fh: b.fh };
-        bad.proof.attestations = vec![attest(&fx.oracles[3], &fx.oracles[3].pubkey, b.header.block_hash(), case.tracker.height + 1, b.fh)];
+        bad.proof.attestations = vec![attest(&fx.oracles[3], &fx.oracles[3].pubkey, b.header.block_hash(), case.tr().height + 1, b.fh)];
         let bytes = serialize(&b.block);
         outs.push(case.do_chunk(&fx, &b.block, b.block.block_hash(), 0, &bytes, true, true, true, "chunk(block A, whole)".into()));
         outs.push(case.do_add(&fx, &bad, ch, "add[streamed, attested only by an untrusted oracle]".into()));
@@ -1265,6 +1543,7 @@ fn main() {
     match argv[1].as_str() {
         "seq" => seq(&args),
         "scripted" => scripted(&args),
+        "handler" => handler(&args),
         other => panic!("unknown sub-domain {}", other),
     }
 }
